@@ -125,7 +125,6 @@ Definition run_tree : list string :=
 
 Definition blocking_allowed_in_run (o : gop) : bool :=
   match o with
-  | GSend ChSessSend _ => true          (* ERROR replies for unusable invocations: the router end drains *)
   | GSend ChInvQueue _ => true          (* handing a chunk to the invocation's goroutine *)
   | GSend _ _ => false
   | GRecv _ _ => false
@@ -256,7 +255,6 @@ Definition h11_subscribechan_sync (fs : list gfunc) : bool :=
 Definition h7_op (o : gop) : bool :=
   match o with
   | GSelect _ false cases _ => has_case cases false ChDone
-  | GSend ChSessSend _ => true        (* the ABORT of the protocol-violation path *)
   | GSend _ _ | GRecv _ _ | GWgWait _ => false
   | GPeerClose _ _ => false           (* only Close() closes the peer *)
   | _ => true
@@ -273,7 +271,7 @@ Definition h7_inv_goroutines (fs : list gfunc) : bool :=
       && forallb (fun b => forallb (fun o =>
             match o with
             | GCall g _ _ => match find_func fs g with
-                             | Some gf => forallb blocking_free (all_ops false gf)
+                             | Some gf => forallb (fun o' => blocking_free o' || h7_op o') (all_ops false gf)
                              | None => true end
             | _ => true end) b) bodies
       && existsb (fun b => existsb (fun o => match o with GWgDone true _ => true | _ => false end) b) bodies
@@ -298,6 +296,7 @@ Fixpoint h9_scan (armed : bool) (ops : list gop) : bool :=
   | [] => true
   | GExpect _ :: r => h9_scan true r
   | GSend ChSessSend _ :: r => h9_scan false r
+  | GCall "send" _ _ :: r => h9_scan false r     (* c.send: hands over or gives up; the caller drops the entry *)
   | GReturn _ :: r => if armed then false else h9_scan armed r
   | _ :: r => h9_scan armed r
   end.
@@ -317,6 +316,28 @@ Definition pair_mem (p : string * string) (l : list (string * string)) : bool :=
 Definition h10_reply_dispatch (d : list (string * string)) : bool :=
   forallb (fun p => pair_mem p d) dispatch_expected && forallb (fun p => pair_mem p dispatch_expected) d.
 
+(* ---- H12: no send towards the router can outlive the client ------------ *)
+(* A plain send on the peer's channel blocks for ever once the transport's
+   writer is gone, and panics when Close() closes the peer.  Every such send
+   must be a select that also watches Done (or a timer / the invocation's
+   context).  The one exception is the recorded known finding: the chunk
+   feeder goroutine of CallProgressive. *)
+Definition plain_sess_send (o : gop) : bool :=
+  match o with GSend ChSessSend _ => true | _ => false end.
+Definition guarded_sess_select (o : gop) : bool :=
+  match o with
+  | GSelect _ false cases _ =>
+      if has_case cases true ChSessSend
+      then has_case cases false ChDone || has_case cases false ChTimer || has_case cases false ChCtx
+      else true
+  | _ => true
+  end.
+Definition h12_sends_watch_done (fs : list gfunc) : bool :=
+  forallb (fun f =>
+    let ops := if String.eqb (gf_name f) "CallProgressive" then all_ops false f else all_ops true f in
+    forallb (fun o => negb (plain_sess_send o)) ops
+    && forallb guarded_sess_select (all_ops true f)) fs.
+
 Definition conformance_report (ok : bool) (fs : list gfunc) (exits : list string) (d : list (string * string))
   : list (string * bool) :=
   [("gen_ok", ok);
@@ -330,7 +351,8 @@ Definition conformance_report (ok : bool) (fs : list gfunc) (exits : list string
    ("h8_peer_closed_once", h8_peer_closed_once fs);
    ("h9_no_orphan_expect", h9_no_orphan_expect fs);
    ("h10_reply_dispatch", h10_reply_dispatch d);
-   ("h11_subscribechan_sync", h11_subscribechan_sync fs)].
+   ("h11_subscribechan_sync", h11_subscribechan_sync fs);
+   ("h12_sends_watch_done", h12_sends_watch_done fs)].
 
 Definition skeleton_conforms_b (ok : bool) (fs : list gfunc) (exits : list string) (d : list (string * string)) : bool :=
   forallb snd (conformance_report ok fs exits d).
